@@ -389,6 +389,24 @@ Proof.
     splits; auto; try discriminate.
 Qed.
 
+Lemma compress_bond_onto_spec : forall keep other l l', compress_bond_onto keep other l = Some l' -> FlagsOK l ->
+  FlagsOK l' /\ length l' = length l /\ keep < length l /\ other < length l
+  /\ (forall k, k <> keep -> k <> other -> get l' k = get l k)
+  /\ (keep < other -> gL (get l keep) = true -> gL (get l' keep) = true)
+  /\ (other < keep -> gR (get l keep) = true -> gR (get l' keep) = true).
+Proof.
+  unfold compress_bond_onto. intros keep other l l' H F.
+  destruct ((keep <? length l) && (other <? length l) && ((S keep =? other) || (S other =? keep))) eqn:E; try discriminate.
+  assert (NE : other <> keep) by lia. assert (A : keep < length l) by lia. assert (B : other < length l) by lia.
+  inversion H; subst; clear H.
+  assert (OK : site_ok (if keep <? other then mkS (gL (get l keep)) false FNone else mkS false (gR (get l keep)) FNone))
+    by (destruct (keep <? other); auto with c08).
+  destruct (two_set l other keep blank _ NE B A F site_ok_blank OK) as (T1 & T2 & T3 & T4 & T5).
+  splits; auto.
+  - intros Q G. rewrite T4. replace (keep <? other) with true by lia. auto.
+  - intros Q G. rewrite T4. replace (keep <? other) with false by lia. auto.
+Qed.
+
 Lemma region_compress_spec : forall si sf rev l l', region_compress si sf rev l = Some l' -> FlagsOK l ->
   FlagsOK l' /\ length l' = length l /\ si <= sf /\ sf < length l
   /\ (forall k, k < si \/ sf < k -> get l' k = get l k)
@@ -639,32 +657,39 @@ Proof.
       split; auto. unfold RecOK. rewrite RR. auto.
     - inversion C; subst. splits; auto. rewrite DS; auto. intros. split; auto. intros; discriminate. }
   destruct P1 as (F1 & L1 & R1).
-  destruct (if 0 <? i then compress_bond (pred i) ARight (sites st1) else Some (sites st1)) as [l1|] eqn:C1; simpl in H; try discriminate.
+  destruct (if 0 <? i then
+              (if cz then compress_bond_onto (pred i) i (sites st1) else compress_bond (pred i) ARight (sites st1))
+            else Some (sites st1)) as [l1|] eqn:C1; simpl in H; try discriminate.
   assert (P2 : FlagsOK l1 /\ length l1 = length (sites st1)
      /\ (forall k, k <> pred i -> k <> i -> get l1 k = get (sites st1) k)
-     /\ (0 < i -> gL (get l1 (pred i)) = true)).
-  { destruct (0 <? i) eqn:Q.
+     /\ (0 < i -> gL (get (sites st1) (pred i)) = true -> gL (get l1 (pred i)) = true)).
+  { destruct (0 <? i) eqn:Q; [destruct cz|].
+    - destruct (compress_bond_onto_spec _ _ _ _ C1 F1) as (A1 & A2 & A3 & A4 & A5 & A6 & A7).
+      splits; auto; intros; try (apply A5; lia); try (apply A6; auto; lia).
     - destruct (compress_bond_spec _ _ _ _ C1 F1) as (A1 & A2 & A3 & A4 & A5 & A6). splits; auto.
       intros. apply A4; lia.
-    - inversion C1; subst. splits; auto. lia. }
+    - inversion C1; subst. splits; auto; try lia. }
   destruct P2 as (F2 & L2 & FR2 & G2).
-  destruct (if S i <? length l1 then compress_bond i ALeft l1 else Some l1) as [l2|] eqn:C2; simpl in H; try discriminate.
+  destruct (if S i <? length l1 then (if cz then compress_bond_onto (S i) i l1 else compress_bond i ALeft l1)
+            else Some l1) as [l2|] eqn:C2; simpl in H; try discriminate.
   assert (P3 : FlagsOK l2 /\ length l2 = length l1
      /\ (forall k, k <> i -> k <> S i -> get l2 k = get l1 k)
-     /\ (S i < length l1 -> gR (get l2 (S i)) = true)).
-  { destruct (S i <? length l1) eqn:Q.
+     /\ (S i < length l1 -> gR (get l1 (S i)) = true -> gR (get l2 (S i)) = true)).
+  { destruct (S i <? length l1) eqn:Q; [destruct cz|].
+    - destruct (compress_bond_onto_spec _ _ _ _ C2 F2) as (A1 & A2 & A3 & A4 & A5 & A6 & A7).
+      splits; auto; intros; try (apply A5; lia); try (apply A7; auto).
     - destruct (compress_bond_spec _ _ _ _ C2 F2) as (A1 & A2 & A3 & A4 & A5 & A6). splits; auto.
-    - inversion C2; subst. splits; auto. lia. }
+    - inversion C2; subst. splits; auto; try lia. }
   destruct P3 as (F3 & L3 & FR3 & G3).
   (* any sound range of st1 widened to contain i is sound afterwards *)
   assert (AROUND : forall a b a' b', Sound (sites st1) a b -> a' <= a -> b <= b' -> a' <= i -> i <= b' ->
                    b' < length (sites st1) -> Sound l2 a' b').
   { intros a b a' b' (S1 & S2 & S3 & S4) Q1 Q2 Q3 Q4 Q5. unfold Sound. splits; auto; try lia.
     - intros k K. rewrite FR3 by lia. destruct (k =? pred i) eqn:Q.
-      + replace k with (pred i) by lia. apply G2. lia.
+      + replace k with (pred i) by lia. apply G2; [lia|]. apply S3. lia.
       + rewrite FR2 by lia. apply S3. lia.
     - intros k K KL. destruct (k =? S i) eqn:Q.
-      + replace k with (S i) by lia. apply G3. lia.
+      + replace k with (S i) by lia. apply G3; [lia|]. rewrite FR2 by lia. apply S4; lia.
       + rewrite FR3 by lia. rewrite FR2 by lia. apply S4; lia. }
   inversion H; subst; clear H; simpl. splits; auto; try lia.
   intros RO B CO. destruct (R1 RO B CO) as (RO1 & RCZ).
